@@ -673,7 +673,7 @@ func oddCorpus(tier string) []tplSpec {
 	odd := []struct{ name, v string }{
 		{"null", `null`}, {"emptyarr", `[]`}, {"emptyobj", `{}`}, {"arr-null", `[null]`}, {"arr-empty", `[[]]`},
 		{"arr-arr-doc", `[[{"%G":%S}]]`}, {"arr-emptyobj", `[{}]`}, {"doc-null", `{"%G":null}`}, {"doc-emptyarr", `{"%G":[]}`},
-		{"arr-mixed", `[%S,null,%N,%B,{"%G":null},[%S,[]]]`}, {"num", `%N`}, {"bool", `%B`},
+		{"arr-mixed", `[%S,null,%N,{"%G":null},[%B,[]]]`}, {"num", `%N`}, {"bool", `%B`}, {"dollar-str", `"$<<F:f9>>"`}, {"arr-dollar", `["$<<F:f9>>",%S]`},
 	}
 	hosts := []struct{ name, text string }{
 		{"filter-field", `{"find":"<<COLL:coll>>","filter":{"%G":@O},"$db":"<<DB:db>>"}`},
@@ -707,7 +707,7 @@ func oddCorpus(tier string) []tplSpec {
 	for hi, h := range hosts {
 		for oi, o := range odd {
 			tags := []string{"odd"}
-			if (hi+oi)%3 == 0 || strings.HasPrefix(h.name, "anykey") && (o.name == "null" || o.name == "arr-arr-doc" || o.name == "num") {
+			if ((hi+oi)%3 == 0 && !(strings.HasPrefix(h.name, "anykey") && o.name == "arr-arr-doc")) || strings.HasPrefix(h.name, "anykey") && (o.name == "null" || o.name == "doc-null" || o.name == "num") {
 				tags = append(tags, "quick")
 			}
 			g.add("odd:"+h.name+"/"+o.name, mk(strings.Replace(h.text, "@O", o.v, 1)), tags...)
